@@ -63,14 +63,21 @@ def read_kernel(path):
     return numpy.asarray(raw.index, dtype=float), numpy.asarray(raw.columns, dtype=float), numpy.asarray(raw.values, dtype=float)
 
 
-def make_iso(p, load):
+def make_iso(p, load, units=None):
     import pygaps
+    if units:       # the isotherm expressed in the kernel's own units (no conversion factor needed to build exact combinations)
+        return pygaps.PointIsotherm(pressure=list(p), loading=list(load), material="kernel-sample", adsorbate="N2", temperature=77.0,
+                                    pressure_mode=units["pressure_mode"], pressure_unit=units["pressure_unit"], loading_basis=units["loading_basis"],
+                                    loading_unit=units["loading_unit"], material_basis=units["material_basis"], material_unit=units["material_unit"])
     return pygaps.PointIsotherm(pressure=list(p), loading=list(load), material="kernel-sample", adsorbate="N2", temperature=77.0,
                                 pressure_mode="relative", loading_basis="molar", loading_unit="mmol", material_basis="mass", material_unit="g")
 
 
-def observe(pk, p, load, kernel, lim, order):
-    out = pk.psd_dft(make_iso(p, load), kernel=kernel, p_limits=lim, bspline_order=order)
+def observe(pk, p, load, kernel, lim, order, units=None):
+    if units is None:
+        out = pk.psd_dft(make_iso(p, load), kernel=kernel, p_limits=lim, bspline_order=order)
+    else:           # units = (the harness's own copy, ONE dictionary object handed to every call)
+        out = pk.psd_dft(make_iso(p, load, units[0]), kernel=kernel, p_limits=lim, bspline_order=order, kernel_units=units[1])
     return {"w": encs(out["pore_widths"]), "dist": encs(out["pore_distribution"]), "cum": encs(out["pore_volume_cumulative"]),
             "kl": encs(out["kernel_loading"]), "lim": [int(out["limits"][0]), int(out["limits"][1])], "exc": False}, out
 
@@ -145,6 +152,15 @@ def main(tier, seed):
                 s = dict(s)
                 s["rot"] = ("row-order", ro["order"])
                 plan.append((rname, s, "knots"))
+        # a user kernel tabulated in other units (spec KernelUnits); one kernel_units dictionary object for all its calls
+        upath = user_kernel(os.path.join(tmp, "units", "user-kernel-5.csv"), 0)
+        kernels["user5-units"] = (None, upath)
+        P_, W_, M_ = read_kernel(upath)
+        data["user5-units"] = {"arg": upath, "P": P_, "W": W_, "M": M_, "units": (dict(hq["kernel_units"]), dict(hq["kernel_units"]))}
+        for s in by_kernel["user5"]:
+            s = dict(s)
+            s["rot"] = ("kernel-units",)
+            plan.append(("user5-units", s, "knots"))
         # grid histories (spec GridHistories): grids with equal length and end points but other interior pressures, one after the other
         ngrid = 0
         for kn in ("shipped", "user5"):
@@ -213,13 +229,14 @@ def main(tier, seed):
                     p2 = numpy.append(p2, [pm_ * 1.0008, pm_ + 0.8 * (1.0 - pm_)])
                     load2 = numpy.append(load2, [load2[-1] * 1.1 + 0.1, load2[-1] * 1.2 + 0.2])
                 karg = d["arg"] if kernel_arg is None else kernel_arg
-                o0, raw0 = observe(pk, p, load, karg, lim, 0)
-                ok = o0 if s["order"] == 0 else observe(pk, p, load, karg, lim, s["order"])[0]
+                ku = d.get("units")
+                o0, raw0 = observe(pk, p, load, karg, lim, 0, ku)
+                ok = o0 if s["order"] == 0 else observe(pk, p, load, karg, lim, s["order"], ku)[0]
                 if s["limits"] == "none":
                     op = ok
                 else:
                     try:
-                        op = observe(pk, p2, load2, karg, lim, s["order"])[0]
+                        op = observe(pk, p2, load2, karg, lim, s["order"], ku)[0]
                     except Exception as e:
                         op = {"w": [], "dist": [], "cum": [], "kl": [], "lim": [0, 0], "exc": True}
                         op_exc = exc_class(e)
